@@ -61,8 +61,8 @@ for h, n, why in (
     R(h, "env", why, count=n)
 
 # ------------------------------------------------------------------ clock arithmetic on bounded durations
-R("7a73a6680c", "config", "seconds since 1970 + a lease duration already clamped to the policy maximum, in u64: no packet chooses the maximum", props=("C05",))
-R("7a73a6680c", "internal", "seconds since 1970 + a lease duration clamped to Response.maxlease.unwrap_or(86400 s), which nothing sets beyond a constant",
+R("c85496bada", "config", "seconds since 1970 + a lease duration already clamped to the policy maximum, in u64: no packet chooses the maximum", props=("C05",))
+R("c85496bada", "internal", "seconds since 1970 + a lease duration clamped to Response.maxlease.unwrap_or(86400 s), which nothing sets beyond a constant",
   props=("C19",), requires=("V5", "C10.R4"))
 R("8248e5f66d", "internal", "Instant + lifetime, lifetime <= u32::MAX seconds (folded from 32-bit record TTLs or the constant 8 s)", requires=("C06.R3",))
 R("a626129d44", "internal", "Instant + lifetime, lifetime <= u32::MAX seconds", requires=("C06.R3",))
